@@ -7,7 +7,8 @@
               tip, revno, testaments (every revision of the ancestry with its strict testament sha1), parents, tags,
               hasTree, wt (working tree entries), wtparents, changes (iter_changes against the basis), disk, tipTree
    C52: history and tags always unchanged; the working tree unchanged where the layout keeps it; a created tree is a
-   clean checkout of the tip; a refused operation (or one that had to be interrupted: rout = "diverges") changes nothing. *)
+   clean checkout of the tip.  Conformance (drift) only: a refused operation (or one that had to be interrupted:
+   rout = "diverges") changes nothing, and layout / outcome are as planned. *)
 EXTENDS LayoutAlgebra, Json, IOUtils, SequencesExt
 Rows == JsonDeserialize(IOEnv.VF_IN)
 VARIABLE i
@@ -26,10 +27,11 @@ Failed(r) ==
           THEN {"tree-kept"} ELSE {})
     \cup (IF ~HasTree(r.l0) /\ HasTree(L1(r)) /\ r.c1.hasTree /\ (r.c1.wt # r.c1.tipTree \/ r.c1.changes # "[]")
           THEN {"tree-created"} ELSE {})
-    \cup (IF r.rout # "ok" /\ r.c1 # r.c0 THEN {"refusal-noop"} ELSE {})
 \* upgrades of a location that is no longer pure are unspecified: only their effect on the content is judged
 Unspecified(r) == r.act # "Reconfigure" /\ ~r.l0.pure
-DriftSpecified(r) == r.rout # Model(r).out \/ r.r1.tree # L1(r).tree \/ r.r1.br # L1(r).br \/ r.r1.repo # L1(r).repo \/ r.c1.hasTree # r.r1.tree
+\* conformance: an operation that raised and whose plan keeps the layout must leave every projection as it was
+RefusalNotNoop(r) == r.rout # "ok" /\ L1(r) = r.l0 /\ r.c1 # r.c0
+DriftSpecified(r) == RefusalNotNoop(r) \/ r.rout # Model(r).out \/ r.r1.tree # L1(r).tree \/ r.r1.br # L1(r).br \/ r.r1.repo # L1(r).repo \/ r.c1.hasTree # r.r1.tree
            \/ L1(r) # r.l1          \* the state machine and the judge must agree on the plan
 Drift(r) == ~Unspecified(r) /\ DriftSpecified(r)
 Bad == SelectSeq([k \in 1..Len(Rows) |-> [row |-> k, failed |-> SetToSeq(Failed(Rows[k])), drift |-> Drift(Rows[k])]],
